@@ -490,6 +490,8 @@ pub mod wasm;
 pub mod pagable;
 
 pub mod coerce;
+#[cfg(feature = "verif_hooks")]
+pub mod verif_hooks;
 #[cfg(test)]
 mod tests;
 
